@@ -41,9 +41,11 @@ class Outcome:
 
 
 def run(argv, env=None, cwd=None, stdin_data=None, chunk=65536, signal_after_chunk=None, signum=signal.SIGINT, close_stdout_after=None,
-        signal_after_stdout=None, watchdog=60.0, hard=150.0, cpu_limit=None):
+        signal_after_stdout=None, watchdog=60.0, hard=150.0, cpu_limit=None, pause=None):
     """signal_after_chunk: send signum after that many chunks were written to stdin (logical instant);
-    signal_after_stdout: send signum after that many bytes of stdout were read; close_stdout_after: close our end of stdout after n bytes."""
+    signal_after_stdout: send signum after that many bytes of stdout were read; close_stdout_after: close our end of stdout after n bytes;
+    pause=(k, seconds): the producer of the pipe goes quiet for that long before it writes chunk k (after the signal, if that is due at k too), or
+    before it closes the pipe if k >= number of chunks: an upstream that neither delivers nor closes for a while."""
     o = Outcome()
     t0 = time.time()
     p = subprocess.Popen(argv, stdin=subprocess.PIPE if stdin_data is not None else subprocess.DEVNULL, stdout=subprocess.PIPE, stderr=subprocess.PIPE,
@@ -80,12 +82,16 @@ def run(argv, env=None, cwd=None, stdin_data=None, chunk=65536, signal_after_chu
             for i in range(0, len(stdin_data), chunk):
                 if signal_after_chunk is not None and n == signal_after_chunk:
                     send_sig()
+                if pause is not None and n == pause[0]:
+                    time.sleep(pause[1])
                 p.stdin.write(stdin_data[i:i + chunk])
                 p.stdin.flush()
                 n += 1
                 o.fed = n
             if signal_after_chunk is not None and n <= signal_after_chunk:
                 send_sig()
+            if pause is not None and n <= pause[0]:
+                time.sleep(pause[1])
         except (BrokenPipeError, OSError, ValueError):
             pass
         finally:
